@@ -19,10 +19,10 @@ RULE = ("all chains of nested interpretation contexts over 9 kinds {eager, lazy,
         "non-trivial when depth>=2; distinct by that tuple")
 ASSUMPTIONS = ["probe classes expected per interpretation are a fixed table derived from the documented meaning of each interpretation"]
 EXHAUSTIVE = {"quick": True, "thorough": True}
-MIN_NONTRIVIAL = {"quick": 2000, "thorough": 20000}
-REQUIRED_COUNTERS = ["steps-checked", "exceptional-exits", "probe-terms-built"]
+MIN_NONTRIVIAL = {"quick": 10000, "thorough": 100000}
+REQUIRED_COUNTERS = ["steps-checked", "exceptional-exits", "probe-terms-built", "failing-substitutions"]
 
-KINDS = ["eager", "lazy", "reflect", "normalize", "sequential", "moment_matching", "memoize", "user", "tape"]
+KINDS = ["eager", "lazy", "reflect", "normalize", "sequential", "moment_matching", "memoize", "user", "user2", "tape"]
 
 
 class Injected(Exception):
@@ -36,9 +36,9 @@ def plan(tier, seed):
     # exhaustive part: split by first kind and second kind
     for k1 in KINDS:
         shards.append({"name": "exh-%s" % k1, "kind": "exhaustive", "first": k1, "max_depth": max_depth, "timeout": 3000})
-    n_s = 16 if tier == "quick" else 48
+    n_s = 6 if tier == "quick" else 48
     for i in range(n_s):
-        shards.append({"name": "sample-%d" % i, "kind": "sample", "depth": sample_depth, "n": 250 if tier == "quick" else 1500, "timeout": 3000})
+        shards.append({"name": "sample-%d" % i, "kind": "sample", "depth": sample_depth, "n": 120 if tier == "quick" else 1500, "timeout": 3000})
     shards.append({"name": "overflow", "kind": "overflow", "timeout": 600})
     return shards
 
@@ -71,6 +71,13 @@ class Harness:
             return Number(42.0)
 
         self.user = user
+        user2 = DispatchedInterpretation("user2")
+
+        @user2.register(Binary, ops.XorOp, Funsor, Funsor)
+        def user2_xor(op, lhs, rhs):
+            return Number(43.0)
+
+        self.user2 = user2
         self.ops = ops
         from collections import OrderedDict
 
@@ -78,6 +85,11 @@ class Harness:
 
         self.t1 = Tensor(np.array([1.0, 2.0]), OrderedDict(i=Bint[2]))
         self.t2 = Tensor(np.array([3.0, 5.0]), OrderedDict(i=Bint[2]))
+        from funsor.domains import Real
+
+        self.vr = Variable("r1", Real)
+        self.vr2 = Variable("r2", Real)
+        self.idx = Tensor(np.array([0, 1, 1]), OrderedDict(q=Bint[3]), 2)
         self.va = Variable("a", Bint[2])
         self.vb = Variable("b", Bint[2])
         self.classes = {}
@@ -85,6 +97,13 @@ class Harness:
         import funsor.terms as T
 
         self.cls = {"Tensor": Tensor, "Reduce": T.Reduce, "Binary": T.Binary, "Contraction": funsor.cnf.Contraction, "Number": T.Number}
+
+    def failing_subs(self):
+        """advanced indexing into a lazy Stack is not implemented: Stack.eager_subs raises inside substitute()"""
+        from funsor.terms import Stack
+
+        st = Stack("s", (self.vr, self.vr2))
+        return st(s=self.idx)
 
     # -- model helpers ---------------------------------------------------
     def top(self):
@@ -97,6 +116,8 @@ class Harness:
             return self.memoize()
         if kind == "user":
             return self.user
+        if kind == "user2":
+            return self.user2
         if kind == "tape":
             return self.AdjointTape()
         raise ValueError(kind)
@@ -112,7 +133,7 @@ class Harness:
                 return "after entering memoize() the active interpretation is %r (base %r), expected Memoize over %r" % (
                     top, getattr(top, "base_interpretation", None), prev_top)
         else:
-            obj = self.user if kind == "user" else cm
+            obj = self.user if kind == "user" else self.user2 if kind == "user2" else cm
             want = (obj,) + tuple(prev_top.subinterpretations)
             got = tuple(getattr(top, "subinterpretations", ()))
             if len(got) != len(want) or any(g is not w for g, w in zip(got, want)):
@@ -122,13 +143,15 @@ class Harness:
     def effective(self, chain_kinds):
         """(user_active, base kind) predicted by the model for a chain of entered kinds"""
         base = "eager"
-        user = False
+        user = 0
         for k in chain_kinds:
             if k in self.total:
                 base = k
-                user = False
+                user = 0
             elif k == "user":
-                user = True
+                user = 42
+            elif k == "user2":
+                user = 43  # the innermost partial layer wins
         return user, base
 
     def probe(self, entered, case):
@@ -148,8 +171,17 @@ class Harness:
                     name, list(entered), type(p).__name__, want, base, user)
         if evaluating and (float(p1.data) != 3.0 or p2.data.tolist() != [4.0, 7.0]):
             return "probe values wrong under %s" % (list(entered),)
-        if user and p3.data != 42.0:
-            return "user rule result wrong"
+        if user and p3.data != float(user):
+            return "probe xor(Variable,Variable) inside %s was rewritten to %s, the innermost user layer should give %s" % (list(entered), p3.data, user)
+        # a substitution that raises must not disturb the stack
+        before = (self.top(), len(self.interpreter._STACK))
+        try:
+            self.failing_subs()
+        except Exception:
+            self.res.count("failing-substitutions")
+        if (self.top(), len(self.interpreter._STACK)) != before and self.top() is not before[0]:
+            return "a substitution that raised inside %s left the interpretation stack changed: top %r depth %d (was %r depth %d)" % (
+                list(entered), self.top(), len(self.interpreter._STACK), before[0], before[1])
         return None
 
     # -- executor ----------------------------------------------------------
@@ -277,7 +309,7 @@ def run_shard(shard, res):
         # entering too many partial layers trips the assertion inside __enter__ *before* the push
         for base in ("eager", "lazy", "normalize", "sequential"):
             for n in range(5, 10):
-                chain = [base] + ["user", "tape"] * n
+                chain = [base] + ["user", "tape", "user2"] * n
                 chain = chain[: 1 + n]
                 errs = h.run_case(chain, "with", 0, 0, None)
                 res.case(key=str(("overflow", base, n)), nontrivial=True, sample={"chain": chain})
